@@ -136,10 +136,17 @@ def run_shard(sh):
                         outs = sr.rctx.outcomes.get(fc, [])
                         nth = getattr(sr.rctx, 'fault_call_ordinal', 0)
                         exc = outs[nth] if nth < len(outs) else 'in-progress'
-                        if not isinstance(exc, OSError):
-                            sh.violation('injected_error_swallowed_by_api_call|' + tag + '|' + fc[0],
-                                         {'call': fc[0], 'outcome': repr(exc)[:80]}, case)
-                            continue
+                        if not (isinstance(exc, OSError) and caused_by(exc, f.exc)):
+                            if f.fired['ev'] == 'os.rmdir':
+                                # removing a directory is not one of the calls whose failure has to
+                                # surface (it may be best-effort cleanup); then the call must have
+                                # carried on as if nothing happened: model_after() returned no failure
+                                # and the state is compared with the fault-free model below
+                                sh.count('rmdir_fault_tolerated_by_library')
+                            else:
+                                sh.violation('injected_error_swallowed_by_api_call|' + tag + '|' + fc[0],
+                                             {'call': fc[0], 'outcome': repr(exc)[:80]}, case)
+                                continue
                     else:
                         if sr.rres[0] != 'exc' or not isinstance(sr.exc_obj, OSError):
                             sh.violation('injected_error_swallowed_by_build|' + tag, {'rres': sr.rres[:2]}, case)
@@ -176,6 +183,17 @@ def run_shard(sh):
         sh.count('programs')
 
 
+def caused_by(exc, injected):
+    """True if exc is the injected error or was raised because of it (__cause__/__context__ chain)"""
+    seen = 0
+    while exc is not None and seen < 10:
+        if exc is injected:
+            return True
+        exc = exc.__cause__ or exc.__context__
+        seen += 1
+    return False
+
+
 def model_after(rctx, mon, sr):
     """the call in progress at the injection fails in setup in the model, with the class observed"""
     fc = rctx.fault_call
@@ -184,11 +202,14 @@ def model_after(rctx, mon, sr):
     outs = rctx.outcomes.get(fc, [])
     nth = getattr(rctx, 'fault_call_ordinal', 0)
     exc = outs[nth] if nth < len(outs) else None
-    if isinstance(exc, OSError):
+    injected = mon.fault.exc if mon.fault is not None else None
+    if isinstance(exc, OSError) and caused_by(exc, injected):
         try:
             e = exc.__class__(exc.errno or errno.EIO, 'injected fault (model)')
         except Exception:
             e = OSError(errno.EIO, 'injected fault (model)')
     else:
+        if mon.fault is not None and mon.fault.fired is not None and mon.fault.fired['ev'] == 'os.rmdir':
+            return {}       # tolerated (see oracle 1): compare with the fault-free model
         e = OSError(errno.EIO, 'injected fault (model)')
     return {((fc[1] if fc[0] == 'bf' else fc), nth): e}
